@@ -79,7 +79,7 @@ func C17(c *core.Ctx) {
 	c.Rule("random sequences of change sets (creates at levels 0-6 with key ids and compression, deletes of live and of unknown ids, mixed sets) " +
 		"on a real manifest file with rewrite threshold 5-50 (every third run starts with a stale MANIFEST-REWRITE file left by a crashed rewrite); after every addChanges the in-memory map, a reference map and ReplayManifestFile must agree; " +
 		"then every truncation offset since the last rewrite must replay to the map after the last complete set and return that set's end offset; " +
-		"a flipped byte inside a complete set's payload or crc must produce an error; the MANIFEST as it is on disk at every persistence event inside addChanges (append, sync, rewrite-file sync, rename) must replay to the table set before or after that change set; distinct = (threshold, rewrites seen, unknown-delete used) classes")
+		"sampled cut copies are re-opened through the real open path, extended by one change set and replayed again; a flipped byte inside a complete set's payload or crc must produce an error; the MANIFEST as it is on disk at every persistence event inside addChanges (append, sync, rewrite-file sync, rename) must replay to the table set before or after that change set; distinct = (threshold, rewrites seen, unknown-delete used) classes")
 	r := c.Rand("c17")
 	dir := c.WorkDir()
 	defer os.RemoveAll(dir)
@@ -223,6 +223,44 @@ func C17(c *core.Ctx) {
 				c.Count("truncation_offsets", 1)
 				if err != nil || !mapsEqual(got, want.m) || off != want.off {
 					c.Violation("C17|truncated", fmt.Sprintf("file cut at %d of %d: err=%v offset=%d want %d mapEqual=%v", t, len(full), err, off, want.off, err == nil && mapsEqual(got, want.m)), info)
+					bad = true
+				}
+			}
+			// torn tail, then life goes on: open the real manifest file on a copy cut at a sampled
+			// offset (the open path truncates the torn tail), append one more change set, close;
+			// the file must then replay to the state before the cut plus that change set
+			for k := 0; k < 6 && !bad && len(full) > 16; k++ {
+				t := start + r.Intn(len(full)-start+1)
+				var want boundary
+				for _, b := range bounds {
+					if b.off <= int64(t) {
+						want = b
+					}
+				}
+				cdir := filepath.Join(sub, fmt.Sprintf("TT%d", k))
+				_ = os.MkdirAll(cdir, 0o755)
+				_ = os.WriteFile(filepath.Join(cdir, badger.ManifestFilename), full[:t], 0o644)
+				mf2, _, err := badger.VerifOpenManifest(cdir, thr, opt)
+				if err != nil {
+					c.Violation("C17|torn-then-append|open", fmt.Sprintf("file cut at %d of %d does not open: %v", t, len(full), err), info)
+					bad = true
+					break
+				}
+				exp := cloneMap(want.m)
+				newID := nextID + 5000 + uint64(k)
+				exp[newID] = badger.TableManifest{Level: 3, KeyID: 1, Compression: options.Snappy}
+				err = mf2.AddChanges([]*pb.ManifestChange{{Id: newID, Op: pb.ManifestChange_CREATE, Level: 3, KeyId: 1, EncryptionAlgo: pb.EncryptionAlgo_aes, Compression: uint32(options.Snappy)}})
+				_ = mf2.Close()
+				c.Count("torn_then_append_cases", 1)
+				if err != nil {
+					c.Violation("C17|torn-then-append|addchanges", err.Error(), info)
+					bad = true
+					break
+				}
+				got, off, err := replayFile(filepath.Join(cdir, badger.ManifestFilename), opt)
+				st, _ := os.Stat(filepath.Join(cdir, badger.ManifestFilename))
+				if err != nil || !mapsEqual(got, exp) || off != st.Size() {
+					c.Violation("C17|torn-then-append|replay", fmt.Sprintf("file cut at %d (torn tail of %d bytes), re-opened, one change set appended: replay err=%v mapEqual=%v offset=%d size=%d", t, int64(t)-want.off, err, err == nil && mapsEqual(got, exp), off, st.Size()), info)
 					bad = true
 				}
 			}
